@@ -69,16 +69,17 @@ Record Defects := {
   d_cache_failed_events : bool; (* handle.go applyTx: SERVICE events of FAILED transactions feed the executor's service cache *)
   d_singleton_mem : bool;       (* registered InterchainManager object: ServiceCache field set by InitServiceCache, nil after restart *)
   d_stale_persister : bool;     (* registered manager objects keep the Persister of the previous call: promoted core methods fail differently on a fresh process *)
+  d_forgets_persister : bool;   (* mutation class: an exported manager method that does not re-bind the embedded core manager's Persister before using it (none in the pinned tree) *)
   d_dst_key_first : bool        (* interchain.go addToMultiTxNotifyMap: dst-notified ids filed under the chain of ibtpIDs[0] (C05; deterministic once sorted) *)
 }.
 (** the C01 theorem holds whatever [d_dst_key_first] is *)
-Definition cfg_fixed_with (k : bool) : Defects := Build_Defects false false false false false false false k.
+Definition cfg_fixed_with (k : bool) : Defects := Build_Defects false false false false false false false false k.
 Definition cfg_fixed : Defects := cfg_fixed_with false.
-Definition cfg_faithful : Defects := Build_Defects true true true true true true true true.
+Definition cfg_faithful : Defects := Build_Defects true true true true true true true false true.
 Definition c01_clean (c : Defects) : Prop :=
   d_notify_unsorted c = false /\ d_timeout_child_order c = false /\ d_first_error_order c = false /\
   d_bns_after_flush c = false /\ d_cache_failed_events c = false /\ d_singleton_mem c = false /\
-  d_stale_persister c = false.
+  d_stale_persister c = false /\ d_forgets_persister c = false.
 
 (* ------------------------------------------------------------------------------------- *)
 (** * Oracles *)
@@ -203,8 +204,9 @@ Definition ib_id (b : ibtp) : N := mk_id (ib_src b) (ib_dst b) (ib_idx b).
 
 Inductive tx :=
 | TOpaque (ok : bool)                                 (* transfer / unmodelled BVM call / malformed: status is an input *)
-| TGov (ok touch : bool) (evs : list (N * svcrec))    (* governance call: status and SERVICE events are inputs; touch = it runs a ServiceManager method *)
+| TGov (ok : bool) (touch : list N) (evs : list (N * svcrec))  (* governance call: status and SERVICE events are inputs; touch = manager contracts whose methods it runs *)
 | TPerm (site : N) (ids : list N)                     (* a call whose check ranges over these (all illegal) keys: RegisterService permissions / UpdateAppchain admins *)
+| TMgrCall (c : N) (forgets ok : bool)                 (* exported *Response method of manager contract c (0 appchain, 1 service, 2 rule, 3 node, 4 role, 5 dapp); [forgets]: it does not re-bind the Persister first; ok: its status when it runs (input) *)
 | TPromoted                                           (* a method promoted from the embedded core ServiceManager (no *Response result) called as a transaction *)
 | TIbtp (valid : bool) (b : ibtp)                     (* valid = signature and proof verified *)
 | TInitCache                                          (* BVM InitServiceCache on the registered object *)
@@ -243,13 +245,13 @@ Record memory := {
   m_acache : smap val;           (* account cache (refinement of the disk) *)
   m_svc_cache : smap svcrec;     (* executor serviceCache *)
   m_singleton : bool;            (* registered InterchainManager object: ServiceCache field non-nil *)
-  m_persister : bool;            (* registered ServiceManager object: embedded Persister set by some earlier call of this process *)
+  m_persister : list N;          (* registered manager objects whose embedded Persister was set by some earlier call of this process *)
   m_height : N;
   m_hash : hsh
 }.
 
 Definition reload (d : disk) : memory :=
-  Build_memory [] [] [] false false (dk_height d) (dk_hash d).
+  Build_memory [] [] [] false [] (dk_height d) (dk_hash d).
 
 (** what a read falls back to when the key was not written in this block: the account cache laid
     over the disk (cache entries win, as in SimpleAccount.GetState) *)
@@ -261,7 +263,7 @@ Record view := {
   v_w : smap val;                 (* writes of this block so far *)
   v_cache : smap svcrec;          (* executor serviceCache *)
   v_single : bool;                (* registered InterchainManager object: ServiceCache field non-nil *)
-  v_persist : bool                (* registered ServiceManager object: Persister set *)
+  v_persist : list N              (* registered manager objects whose Persister is set *)
 }.
 
 Record change := {
@@ -514,6 +516,9 @@ Section Exec.
          || ((ib_typ b =? 0) && match sget (ib_src b) cache with Some r0 => sv_avail r0 && miss (ib_dst b) | None => false end)
          || recorded.
 
+  Definition pset (c : N) (l : list N) : list N := if mem_N c l then l else c :: l.
+  Definition pset_if (b : bool) (c : N) (l : list N) : list N := if b then pset c l else l.
+
   (** ** one transaction (handle.go applyTx): receipt, then harvesting of its events *)
   Definition cache_store (c : smap svcrec) (evs : list (N * svcrec)) : smap svcrec :=
     fold_left (fun c e => sset (fst e) (snd e) c) evs c.
@@ -526,9 +531,9 @@ Section Exec.
       | TOpaque ok => (v, Build_receipt ok false (if ok then RNone else RErr 9) None [])
       | TGov ok tch evs =>
           let w' := if ok then fold_left (fun a e => sset (K_svc (fst e)) (VSvc (snd e)) a) evs (v_w v) else v_w v in
-          (Build_view w' (v_cache v) (v_single v) (v_persist v || tch), Build_receipt ok false (if ok then RNone else RErr 9) None evs)
+          (Build_view w' (v_cache v) (v_single v) (fold_right pset (v_persist v) tch), Build_receipt ok false (if ok then RNone else RErr 9) None evs)
       | TPerm site ids =>
-          let vt := Build_view (v_w v) (v_cache v) (v_single v) (v_persist v || (site =? S_PERM)) in
+          let vt := Build_view (v_w v) (v_cache v) (v_single v) (pset (if site =? S_PERM then 1 else 0) (v_persist v)) in
           match pick (d_first_error_order cfg) site i ids with
           | [] => (vt, Build_receipt true false RNone None [])
           | first :: _ => (vt, failed (RPerm first))
@@ -536,11 +541,17 @@ Section Exec.
       | TPromoted =>
           (* fresh process: nil Persister -> nil pointer panic; otherwise the method runs against the
              previous call's stub and the reflective call panics on the non-Response result *)
-          (v, failed (if d_stale_persister cfg then (if v_persist v then RIfaceConv else RNilPtr) else RErr 8))
+          (v, failed (if d_stale_persister cfg then (if mem_N 1 (v_persist v) then RIfaceConv else RNilPtr) else RErr 8))
+      | TMgrCall c forgets ok =>
+          if forgets && d_forgets_persister cfg then
+            (* runs on whatever Persister the previous call of this process left: nil on a fresh process *)
+            (v, if mem_N c (v_persist v) then Build_receipt ok false (if ok then RNone else RErr 9) None [] else failed RNilPtr)
+          else
+            (Build_view (v_w v) (v_cache v) (v_single v) (pset c (v_persist v)), Build_receipt ok false (if ok then RNone else RErr 9) None [])
       | TIbtp valid b =>
           if valid then
             let '(w', r, rec) := handle_ibtp i (v_cache v) (v_w v) b h in
-            (Build_view w' (v_cache v) (v_single v) (v_persist v || ibtp_touch (v_cache v) b rec), r)
+            (Build_view w' (v_cache v) (v_single v) (pset_if (ibtp_touch (v_cache v) b rec) 1 (v_persist v)), r)
           else (v, failed (RErr 1))
       | TInitCache =>
           (* no *Response result: the reflective call panics after the method ran (before b7f5ec6f) *)
@@ -549,7 +560,7 @@ Section Exec.
           if d_singleton_mem cfg && v_single v then
             let '(w', r, rec) := handle_ibtp i [] (v_w v) b (h - 1) in
             (* a failed BVM call is reverted; node-local memory is not *)
-            (Build_view (if rc_ok r then w' else v_w v) (v_cache v) (v_single v) (v_persist v || ibtp_touch [] b rec), r)
+            (Build_view (if rc_ok r then w' else v_w v) (v_cache v) (v_single v) (pset_if (ibtp_touch [] b rec) 1 (v_persist v)), r)
           else (v, failed RNilPtr)   (* nil ServiceCache field: the call dies on it (in the repaired code always) *)
       end in
     let c2 := if rc_ok r || d_cache_failed_events cfg then cache_store (v_cache v1) (rc_svc_events r) else v_cache v1 in
@@ -751,7 +762,7 @@ Definition genesis (cfg : Defects) (o : oracle) (g : list (N * val)) : memory * 
   let hash := HBlock 1 HNone root [] [] in
   let d := Build_disk (commit o 1 w1 []) 1 hash root [accts] (o_clock o 1 0) in
   let pend := if d_bns_after_flush cfg then fold_left (fun w kv => sset (fst kv) (snd kv) w) bns_data [] else [] in
-  let m := Build_memory pend (commit o 1 w1 []) [] false false 1 hash in
+  let m := Build_memory pend (commit o 1 w1 []) [] false [] 1 hash in
   (m, d, Build_result 1 hash root [] [] [] [] [] [] []).
 
 Definition restart (m : memory) (d : disk) : memory := reload d.
